@@ -102,7 +102,7 @@ def saturating_mul16(a, b):
 def shift_left32(a, offset):
     assert offset >= 0
     assert np.int32(a) == a
-    shifted = a * (1 << offset)
+    shifted = int(a) * (1 << offset)
     if shifted < np.iinfo(np.int32).min:
         return np.int32(np.iinfo(np.int32).min)
     elif shifted > np.iinfo(np.int32).max:
@@ -114,7 +114,7 @@ def shift_left32(a, offset):
 def shift_left16(a, offset):
     assert offset >= 0
     assert np.int16(a) == a
-    shifted = a * (1 << offset)
+    shifted = int(a) * (1 << offset)
     if shifted < np.iinfo(np.int16).min:
         return np.int16(np.iinfo(np.int16).min)
     elif shifted > np.iinfo(np.int16).max:
@@ -231,5 +231,5 @@ def multiply_by_quantized_multiplier(x, scale, shift):
     shift = 31 - shift
     left_shift = shift if shift > 0 else 0
     right_shift = -shift if shift < 0 else 0
-    mul = saturating_rounding_mul32(x * (1 << left_shift), scale)
+    mul = saturating_rounding_mul32(int(x) * (1 << left_shift), scale)
     return rounding_divide_by_pot(mul, right_shift)
